@@ -93,7 +93,7 @@ func (p *c05) Rule() string {
 	return "grid (exhaustive): one include, two props pa,pb, each in every state of {omitted, static, {{ }}, bound truthy, bound falsy} x {component front-matter has the key or not} x {includer has the variable or not} x {listed in :required or not}, x placement {page level, inside a component (includer variable is itself a prop), inside v-for} x syntax {<template include>, shorthand} x entry {Template+WithComponents, Vue+RegisterComponent}; " +
 		"types (exhaustive): every JSON-marshalable typed value of the catalogue (JSON-like kinds, all numeric widths, typed slices/maps/structs/pointers, every falsy zero) bound by :p=\"v\", v-bind:p=\"v\", :p=\"o.k\", with/without a colliding includer variable, observed through | json and | type in the component and one level further down (:pb=\"pa\"); " +
 		"multi (exhaustive): the same component file included 1-3 times in a row with every combination of {omitted, static, {{ }}, bound} for pa x front-matter x includer variable x :required; " +
-		"propnames: 22 prop names that coincide with words the engine uses elsewhere (required, require, content, layout, slot, name, key, is, ref, ...) x {static, {{ }}, bound, shorthand static, shorthand bound} x {listed in the component's :required or not} x {includer has a variable of that name or not} x {page level, inside v-for}: the prop arrives, satisfies :required, shadows the includer's variable inside and is gone after; " +
+		"propnames: 22 prop names that coincide with words the engine uses elsewhere (required, require, content, layout, slot, name, key, is, ref, ...) x {static, {{ }}, bound, shorthand static, shorthand bound} x {listed in the component's :required or not} x {includer has a variable of that name or not} x {page level, inside v-for} x {no condition, v-if, v-else on the include tag itself}: the prop arrives, satisfies :required, shadows the includer's variable inside and is gone after; " +
 		"names: WithComponents() mapping table for nested directories, shorthand at page level and inside a component; " +
 		"tree (seeded random, 40 000 quick / 320 000 thorough): include trees of depth <= 3 and fan-out <= 3 over the name universe {pa,pb,pc,pd}, random prop forms, front-matter subsets, :required subsets in 5 spellings (csv, spaces, :require, split over :required+:require, repeated :require), component files reused by several includes, includes inside v-for, shorthand at any level, typed page data; " +
 		"non-trivial = a case whose render reached at least one component instance or was decided by the :required predicate; distinct by the full text of the files and data"
